@@ -64,6 +64,7 @@ J('DecodeConnectivity.contract', 'h_enf_MSD_DecodeConnectivity', ['C03', 'C18', 
            'Mesh_AddFace', 'PointCloud_set_num_points', 'MSD_bitstream_version'], timeout=2400, cost=10, cbmc=['--object-bits', '11'], solver='cadical')
 J('DecodeAndDecompressIndices.contract', 'h_enf_MSD_DecodeAndDecompressIndices', ['C03', 'C18', 'C02'], native_api={'src': 'native/api_seqmesh_badindex.cc', 'args': []}, enforce='MSD_DecodeAndDecompressIndices', loops=True,
   replace=['alloc_u32_array', 'DecodeSymbols_stub', 'Mesh_AddFace'], timeout=1800, cost=10)
+J('fmt.index_width', 'h_seq_index_width', ['C05'], defines=DEFS + ['-DSEQ_INLINE'], unwind=8, unwind_reason='one face (3 corners), varint recursion <= 6; unwinding assertions on', cbmc=['--object-bits', '12'])
 TYPES_PRELUDE = ['core_types.h']
 COSIM = False
 ASSUMPTIONS = ['Mesh::AddFace, PointCloud::set_num_points, PointCloudDecoder::bitstream_version and DecodeSymbols are contract-only stubs: AddFace records the largest stored index + 1 in ghost state, '
